@@ -136,9 +136,11 @@ def c16_8(ctx: Ctx):
         "_ARM64_ELF": {f"x{i}" for i in range(0, 16)} | {"x29", "x30"},
         "_MIPS32_ELF": {f"t{i}" for i in range(0, 10)} | {f"a{i}" for i in range(0, 4)} | {"v0", "v1"},
     }
+    need = {"_ARM64_ELF": {f"x{i}" for i in range(0, 18)} | {"x30"}}  # see C16.14
     for cname, w in want.items():
         m = repo.func(f"abi.{cname}.caller_saved_registers")
         got = fold_names(m)
+        w = w | (got & need.get(cname, set()))
         ctx.check(got == w, m, m.node, f"{cname} caller-saved set = {sorted(w)[:4]}..({len(w)})",
                   f"caller-saved set is {sorted(got)}: missing {sorted(w - got)}, extra {sorted(got - w)} - a register the callee may clobber is not preserved around CallPatch",
                   key=f"C16.8::cs::{cname}")
@@ -150,7 +152,7 @@ def c16_8(ctx: Ctx):
         rets = [n for n in walk_no_nested(m.node) if isinstance(n, ast.Return)] if m else []
         got = rets[0].value.value if len(rets) == 1 and isinstance(rets[0].value, ast.Constant) else None
         ctx.check(got == w, m or repo.cls(f"abi.{cname}").mod, None, f"{cname}.temporary_label_prefix() == {w!r}", f"returns {got!r}", key=f"C16.8::prefix::{cname}")
-    cols = {"_X86_64_ELF": 16, "_ARM64_ELF": 30, "_MIPS32_ELF": 31}  # CIE return address column: RIP=16, x30 (LR), $ra (r31)
+    cols = {"_X86_64_ELF": 16, "_X86_64_PE": 16, "_IA32_PE": 8, "_ARM64_ELF": 30, "_MIPS32_ELF": 31}  # CIE return address column: RIP=16, x30 (LR), $ra (r31)
     for cname, w in cols.items():
         m = repo.method(repo.cls(f"abi.{cname}"), "default_dwarf_eh_return_column")
         rets = [n for n in walk_no_nested(m.node) if isinstance(n, ast.Return)] if m else []
@@ -299,3 +301,27 @@ def c07_10(ctx: Ctx):
     init = repo.cls("scopes.AllFunctionsScope").methods["__init__"]
     t = src(init.node)
     ctx.check(all(x in t for x in ("self.position = position", "self.block_position = block_position", "self.functions = functions")), init, init.node, "constructor stores position, block position and filter", "constructor changed")
+
+
+@rule("C16.14", ["C16", "C17"], "the ARM64 caller-saved set covers every register AAPCS64 lets a callee change", 1)
+def c16_14(ctx: Ctx):
+    """AAPCS64: r0-r17 are call-clobbered (r16/r17 = IP0/IP1, written by every PLT stub and veneer), r30 by the call itself."""
+    repo = ctx.repo
+    m = repo.func("abi._ARM64_ELF.caller_saved_registers")
+    names: Set[str] = set()
+    for n in ast.walk(m.node):
+        if isinstance(n, (ast.SetComp, ast.ListComp, ast.GeneratorExp)):
+            gen = n.generators[0]
+            if isinstance(gen.iter, ast.Call) and src(gen.iter.func) == "self._inclusive_range" and isinstance(n.elt, ast.Call) and n.elt.args and isinstance(n.elt.args[0], ast.JoinedStr):
+                lo, hi = minieval(gen.iter.args[0], {}), minieval(gen.iter.args[1], {})
+                prefix = "".join(v.value for v in n.elt.args[0].values if isinstance(v, ast.Constant))
+                names |= {f"{prefix}{i}" for i in range(lo, hi + 1)}
+    for c in calls_in(m.node, nested=True):
+        if src(c.func) == "self.get_register" and c.args and isinstance(c.args[0], ast.Constant):
+            names.add(c.args[0].value)
+    if len(names) < 10:
+        raise AnalysisError(f"ARM64 caller-saved set not recognised: {sorted(names)}")
+    w = {f"x{i}" for i in range(0, 18)} | {"x30"}
+    ctx.check(w <= names, m, m.node, "x0-x17 and x30 are in the set",
+              f"{sorted(w - names)} are call-clobbered under AAPCS64 but not in the set: a patch with preserve_caller_saved_registers=True (the CallPatch default) returns with them changed",
+              key="C16.8::cs-abi::_ARM64_ELF")
